@@ -1,4 +1,5 @@
 From Coq Require Import ZArith Extraction ExtrOcamlBasic.
 From CyVerif Require Import Lib.CInt Model.M_Convert.
 Extraction "../ocaml/gen/m_convert.ml" ex_keep from_py to_py roundtrip charp_roundtrip string_roundtrip
-  utf8_encode utf8_decode.
+  charp_roundtrip_l string_roundtrip_l charp_strlen_l string_size_l unicode_asas kind_of is_ascii
+  encode_with decode_with utf8_encode utf8_decode.
